@@ -698,6 +698,7 @@ def macro_strategy(tier):
             "trace": st.integers(0, 5),  # with minDens 1e-3 this nuclide is present at 2.5e-4
             "realBlock": st.booleans(),
             "prodOrder": st.sampled_from([1, 3, 2, 4]),
+            "upscatter": st.sampled_from([0, 1, 2, 0, 3]),
             "zeroEcapt": st.lists(st.integers(0, 5), max_size=2),
             "zeroEfiss": st.lists(st.integers(0, 5), max_size=2),
             "deleteMode": st.sampled_from(["del", "del", "purge", "none"]),
@@ -776,7 +777,7 @@ def macro_execute(case):
     guard = _global_guard()
     common = {k: case[k] for k in ("base", "suffix", "nucs", "band", "dropRx", "dropBlocks", "dropFission", "fwChi")}
     specs = [dict(common, kind=k, scale=sc, ng=case["ng"], gg=case["gg"], prodOrder=case.get("prodOrder", 1),
-                  zeroEcapt=case.get("zeroEcapt", []), zeroEfiss=case.get("zeroEfiss", []))
+                  zeroEcapt=case.get("zeroEcapt", []), zeroEfiss=case.get("zeroEfiss", []), upscatter=case.get("upscatter", 0))
              for k, sc in zip(L.KINDS, case["scales"])]
     paths = _files(specs, "x")
     try:
@@ -818,6 +819,9 @@ def macro_execute(case):
             return [np.asarray(getter(i), dtype=float) for i in range(nn)]
 
         iso = [ref[0][lab] for lab in labels]
+        if any(m_ is not None and np.triu(m_.toarray(), 1).any() for x_ in iso
+               for m_ in (x_.micros.elasticScatter, x_.micros.inelasticScatter, x_.micros.n2nScatter)):
+            out.label("up-scatter")  # entries above the diagonal survived the write/read
         gam = [ref[1][lab] for lab in labels]
         pmx = [ref[2][lab] for lab in labels]
 
